@@ -1705,7 +1705,12 @@ impl<'a> Tycker<'a> {
                 self.statics.types_pre.replace_existing(id, ty);
             }
         }
-        let missing = resolver.into_missing();
+        let mut missing = resolver.into_missing();
+        // Identifier order follows process-relative key spaces; report the sites in source order.
+        missing.sort_by_cached_key(|fill| {
+            let (path, range) = self.inference_site_ariadne_span(self.statics.fills[fill]);
+            (path.to_string(), range.start, range.end)
+        });
         if !missing.is_empty() {
             // keep running tycker even after unsuccessful solving hole
             let _: ResultKont<()> =
